@@ -56,6 +56,15 @@ def oracle(spec: dict, res: dict, failing: bool):
                 yield "failure:pending-task-after-raise", f"tasks still pending after the executor raised: {res['pending'][:6]}"
 
 
+def _fail_node(spec: dict):
+    """index of the step that fails: the transformer that raises, or the scatter fed with a non-list (escape mode)"""
+    for nd in spec["nodes"]:
+        f = nd.get("fail")
+        if f:
+            return nd["id"] + 1 if f.get("mode") == "escape" else nd["id"]
+    return None
+
+
 class C04(Property):
     pid = "C04"
     title = "Every well-formed workflow terminates, and failures terminate every step"
@@ -66,7 +75,8 @@ class C04(Property):
     rule = ("random well-formed DAG workflows (sfv.rt.wfgen: 2..12 nodes from the real step classes — transformers, scatter/gather "
             "incl. unknown-size and depth-2 gathers, dot / cartesian combinators, conditional steps, schedule/transfer/execute job "
             "pipelines) run on the real StreamFlowExecutor under the default asyncio order and 3 (quick) / 8 (thorough) PRNG task "
-            "interleavings each; half of the workflows additionally with one transformer raising on one tag. Oracle per run: executor "
+            "interleavings each; half of the workflows additionally with one injected failure (a transformer raising on one tag, or a "
+            "scatter fed a non-list so that the exception escapes run() into the executor). Oracle per run: executor "
             "return/raise, hang watchdog, every step terminated at the moment run() exits, one termination token per port, no pending "
             "task. Compared with the Lean model: executor outcome and (failure-free) the final status of every step. Non-trivial = "
             "workflow with >= 3 nodes.")
@@ -119,7 +129,7 @@ class C04(Property):
             run_spec = fspec or spec
             seeds = [rng.randrange(1 << 30) for _ in range(k)]
             runs = wfcheck.run_schedules(run_spec, seeds, ctx.scratch, timeout=30.0)
-            fail_node = next((nd["id"] for nd in run_spec["nodes"] if nd.get("fail")), None)
+            fail_node = _fail_node(run_spec)
             key = ("wf", json.dumps(run_spec, sort_keys=True)) if len(spec["nodes"]) >= 3 else None
             ctx.case({"spec": run_spec, "failing": failing, "outcomes": [r["outcome"]["kind"] for r in runs],
                       "unterminated_at_exit": [len(r.get("unterminated_at_exit", [])) for r in runs]},
@@ -132,7 +142,7 @@ class C04(Property):
                     continue
                 for fkey, detail in oracle(run_spec, r, failing):
                     ctx.fail(fkey, detail, {"spec": run_spec, "failing": failing, "seed": r["seed"], "shuffle": r["shuffle"]})
-            words = wfcheck.spec_words(spec)
+            words = wfcheck.spec_words(run_spec)
             lines.append(f"exec {words}" + (f" fail={fail_node}" if failing else ""))
             metas.append(("outcome", run_spec, failing, runs))
             if not failing:
@@ -176,7 +186,7 @@ class C04(Property):
         print("unterminated when run() exited:", res.get("unterminated_at_exit"))
         print("steps   :", {n: (v["status"], v["terminated"]) for n, v in res.get("steps", {}).items()})
         print("pending :", res.get("pending"))
-        fail_node = next((nd["id"] for nd in spec["nodes"] if nd.get("fail")), None)
+        fail_node = _fail_node(spec)
         base = json.loads(json.dumps(spec))
         for nd in base["nodes"]:
             nd.pop("fail", None)
